@@ -772,6 +772,35 @@ func runLiterals(env *common.Env, rep *common.Report, p *pool) (n int) {
 }
 
 // ---------------------------------------------------------------------------------------
+// the numeric literals of spec/C11/PipelineNumbers.tla: integer part x fraction x exponent x suffix
+
+func runNumbers(env *common.Env, rep *common.Report, p *pool) (n int) {
+	bad := 0
+	res := env.MustTLC(common.TLCRun{Dir: "C11", Module: "PipelineNumbers", Config: "numbers.cfg", Timeout: 8 * time.Minute,
+		OnLine: func(rec []byte) {
+			var c struct {
+				Num string `json:"num"`
+			}
+			if err := json.Unmarshal(rec, &c); err != nil || c.Num == "" {
+				bad++
+				return
+			}
+			n++
+			if n%2000 == 11 {
+				rep.Sample(map[string]interface{}{"kind": "numeric literal (spec/C11/PipelineNumbers)", "source": c.Num})
+			}
+			for _, src := range []string{c.Num, "-" + c.Num, "x = [" + c.Num + ", 1]\n", "f(" + c.Num + ".real)\n"} {
+				p.jobs <- job{src: src, lex: lexClaim{Lex: "none"}, origin: "numeric literal of spec/C11/PipelineNumbers"}
+			}
+		}})
+	rep.AddTLC(res)
+	if bad > 0 || n == 0 || !res.Finished || len(res.Violations) > 0 {
+		common.Inconclusive("property=C11 number generation failed (%d unreadable records, %d numbers, %v)\n%s", bad, n, res.Violations, res.Stdout)
+	}
+	return n
+}
+
+// ---------------------------------------------------------------------------------------
 // grammar-shaped VALID programs: the bounded random statement / expression trees of
 // spec/C06/PyGrammarGen.tla in two spellings each (they parse by construction, so all of them
 // reach the symbol table and most of them code generation and the assembler).
@@ -997,6 +1026,8 @@ func main() {
 	lap("grammar_programs_done_at")
 	nLit := runLiterals(env, rep, p)
 	lap("literals_done_at")
+	nNum := runNumbers(env, rep, p)
+	lap("numbers_done_at")
 	// 3. mutations of the repository's .py files
 	files, mutants := runMutations(env, rep, p, alpha, env.Pick(12, 150))
 	p.finish()
@@ -1013,7 +1044,7 @@ func main() {
 	rep.Rule = "cases = source texts: every sequence of 1.." + strconv.Itoa(env.Pick(2, 3)) + " items of the " + strconv.Itoa(len(alpha)) +
 		"-item alphabet (spec/C11/alphabet.ndjson) joined with and without a space, every filler of 0.." + strconv.Itoa(env.Pick(1, 2)) +
 		" items in each grammatical frame of PipelineUniverse.tla, every leaf statement under every nesting of 1.." + strconv.Itoa(env.Pick(2, 3)) +
-		" compound frames, every def-use flag configuration of spec/C03/PyScopeFlags on 4-block nestings (TLC, exhaustive), every string/bytes literal of spec/C11/PipelineLiterals (7 prefixes x 4 quotes x bodies of up to " + strconv.Itoa(env.Pick(2, 3)) + " of 25 pieces), seeded spelled trees of spec/C06/PyGrammarGen, seeded TLC draws of 3..8 free items and 2..4 filler items, " +
+		" compound frames, every def-use flag configuration of spec/C03/PyScopeFlags on 4-block nestings (TLC, exhaustive), every string/bytes literal of spec/C11/PipelineLiterals (7 prefixes x 4 quotes x bodies of up to " + strconv.Itoa(env.Pick(2, 3)) + " of 25 pieces), every numeric literal of spec/C11/PipelineNumbers (20 integer parts x 6 fractions x 9 exponents x 7 suffixes), seeded spelled trees of spec/C06/PyGrammarGen, seeded TLC draws of 3..8 free items and 2..4 filler items, " +
 		"and seeded byte/token mutations of every .py file of the repository; each compiled in exec, eval and single mode. " +
 		"distinct_nontrivial counts distinct source texts (SHA-1); evaluations counts py.Compile calls plus parser.LexString comparisons"
 	rep.Exhaustive = false
@@ -1025,6 +1056,7 @@ func main() {
 	rep.Extra["sequences_nested_compound_frames"] = nestedTotal.Load()
 	rep.Extra["scope_programs"] = nScope
 	rep.Extra["literals_prefix_x_quote_x_body"] = nLit
+	rep.Extra["numeric_literals"] = nNum
 	rep.Extra["grammar_programs"] = nGrammar
 	rep.Extra["repository_files"] = files
 	rep.Extra["mutants"] = mutants
